@@ -27,3 +27,16 @@ package server
 //@   foreach_field zoekt.Stats except Duration,FlushReason ensures old(allNonNeg(s.agg.Stats)) ==> sentStats.$f == old(sentStats.$f) + old(s.agg.Stats.$f)
 
 //@ pure func allNonNeg(st zoekt.Stats) bool = st.ContentBytesLoaded >= 0 && st.IndexBytesLoaded >= 0 && st.Crashes >= 0 && st.FileCount >= 0 && st.ShardFilesConsidered >= 0 && st.FilesConsidered >= 0 && st.FilesLoaded >= 0 && st.FilesSkipped >= 0 && st.ShardsScanned >= 0 && st.ShardsSkipped >= 0 && st.ShardsSkippedFilter >= 0 && st.MatchCount >= 0 && st.NgramMatches >= 0 && st.NgramLookups >= 0 && st.Wait >= 0 && st.MatchTreeConstruction >= 0 && st.MatchTreeSearch >= 0 && st.RegexpsConsidered >= 0
+
+// ---------------------------------------------------------------------------
+// C24: the gRPC handlers are total on well-formed wire requests, including
+// requests with unset fields (no query, no options)
+// ---------------------------------------------------------------------------
+
+//@ func server.(*Server).Search
+//@   requires s != nil && s.streamer != nil
+//@   ensures true
+
+//@ func server.(*Server).StreamSearch
+//@   requires s != nil && s.streamer != nil && ss != nil
+//@   ensures true
